@@ -831,7 +831,7 @@ var icmpTypeCodes = map[string]string{
 	"port-unreachable":            "3 3",
 	"precedence-unreachable":      "3 15",
 	"protocol-unreachable":        "3 2",
-	"reassembly-timeout":          "11",
+	"reassembly-timeout":          "11 1",
 	"redirect":                    "5",
 	"router-advertisement":        "9",
 	"router-solicitation":         "10",
